@@ -481,7 +481,7 @@ def enum_flow_table():
         if etag:
             cs += [{'inm': etag}, {'im': '"other"'}, {'im': etag, 'inm': '"a", %s' % etag}]
         if ranged:
-            cs += [dict(c, range='bytes=2-5') for c in cs[:4]] + [{'range': 'bytes=0-1,4-4'}, {'range': 'bytes=14-'}]
+            cs += [dict(c, range='bytes=2-5') for c in cs] + [{'range': 'bytes=0-1,4-4'}, {'range': 'bytes=14-'}]
         return cs
     for stream, proto in itertools.product((0, 1), ('1.1', '1.0')):
         for method in ('GET', 'HEAD', 'POST', 'PUT'):
